@@ -120,6 +120,7 @@ pub fn property() -> Property {
     index!("approx-int-u32", ai, approxeq::INT_ABS_TOTAL, ALL, ALL, approxeq::int_abs_all::<u32>);
     index!("approx-int-u64", ai, approxeq::INT_ABS_TOTAL, ALL, ALL, approxeq::int_abs_all::<u64>);
     let am = "the same predicates with several positions differing (each by its own kind), one tolerance triple per case (ordinary 5/8, unusual 3/8: negative / NaN / inf epsilon, max_relative 0 / >1 / NaN, max_ulps up to u32::MAX); operand form two objects (3/4) / the same object / a bitwise copy (1/8 each, holding the drawn special values)";
+    index!("approx-custom-element", "a user element type whose default_epsilon (1e-9), default_max_relative (0.05) and default_max_ulps (7) all differ: every container's default_* equal the element's; the approx front-end macros / builders with DEFAULT tolerances and the explicit forms equal the conjunction of the element's verdicts, for operands 1% / 10% / 5 and 9 'ulps' / 0.5e-9 apart at each position", approxeq::POSITIONS, ALL, ALL, approxeq::custom_all);
     tape!("approx-mixed-f32", am, 224, 20_000, 600_000, approxeq::mixed_all::<f32>);
     tape!("approx-mixed-f64", am, 224, 20_000, 600_000, approxeq::mixed_all::<f64>);
 
